@@ -514,11 +514,20 @@ func makeClassesReady(p *slip.Package) {
 }
 
 func classChanged(cc slip.Class, p *slip.Package) {
+	var subs []isStandardClass
 	for _, c := range p.AllClasses() {
 		if c.Inherits(cc) {
 			if sc, ok := c.(isStandardClass); ok {
-				sc.mergeSupers()
+				subs = append(subs, sc)
 			}
 		}
+	}
+	// A class merges what its superclasses have merged so the superclasses
+	// must come first. A subclass always has the longer precedence list.
+	sort.SliceStable(subs, func(i, j int) bool {
+		return len(subs[i].precedenceList()) < len(subs[j].precedenceList())
+	})
+	for _, sc := range subs {
+		sc.mergeSupers()
 	}
 }
